@@ -303,7 +303,11 @@ def get_arg_ctx_ast(
                 f"simpler sorts of arguments (no kargs or kwargs)."
                 f" The full signature was: {arg_sig}"
             )
-        if idx < num_args:
+        if p.kind == Parameter.VAR_POSITIONAL:
+            # *args binds all the remaining positional arguments (not only the first one of them)
+            rest = [process_arg(a) for a in args[idx:]]
+            h = None if any(x is None for x in rest) else dds_hash(rest)
+        elif idx < num_args and p.kind != Parameter.VAR_KEYWORD:
             # It is a list argument
             h = process_arg(args[idx])
         else:
